@@ -5,6 +5,7 @@ import (
 	"errors"
 	"fmt"
 	"math/rand"
+	"sync"
 	"sync/atomic"
 
 	"github.com/aldas/go-modbus-client/packet"
@@ -85,6 +86,27 @@ func gen(g *mon.Gen) {
 			g.Emit(&Case{Kind: "errcube", Unit: u})
 		}
 	}
+	// two-field cubes: for one unit id, every value of a 16-bit field (address / value) of several frame shapes: the emitted
+	// trailer must be the CRC and the WithCRC parser must accept the library's own frame (needles such as "CRC == 0x0000" or
+	// "CRC == CR LF" are somewhere in this space for every shape)
+	units := []int{0, 1, 17, 58, 247, 255}
+	if g.Thorough() {
+		units = units[:0]
+		for u := 0; u < 256; u++ {
+			units = append(units, u)
+		}
+	} else {
+		for k := 0; k < 10; k++ {
+			units = append(units, g.Rng.Intn(256))
+		}
+	}
+	for _, u := range units {
+		g.Emit(&Case{Kind: "cube", Unit: u, Seed: g.Rng.Int63()})
+	}
+	// cold start: in a fresh process, 12 goroutines make the process's very first CRC16 / RTU Bytes() calls at the same moment
+	for i := 0; i < g.Pick(24, 400); i++ {
+		g.Emit(&Case{Kind: "coldstart", Seed: g.Rng.Int63()})
+	}
 	// trailer sweeps: one frame per (fc, request/response, size class)
 	nTr := g.Pick(10, 60)
 	rng := rand.New(rand.NewSource(g.Rng.Int63()))
@@ -140,7 +162,128 @@ func run(ci any, r *mon.Rec) {
 		runErrCube(c, r)
 	case "trailer":
 		runTrailer(c, r)
+	case "cube":
+		runCube(c, r)
+	case "coldstart":
+		if !r.InChild() {
+			r.RunInFreshProcess([]any{c}) // the same case, executed as the first thing a new process does
+			return
+		}
+		runColdStart(c, r)
 	}
+}
+
+// runColdStart runs in a fresh child process before anything else has touched the checksum code.
+func runColdStart(c *Case, r *mon.Rec) {
+	rng := rand.New(rand.NewSource(c.Seed))
+	const G = 12
+	msgs := make([][]byte, G)
+	for i := range msgs {
+		msgs[i] = libx.RandBytes(rng, 1+rng.Intn(60))
+		for k := range msgs[i] {
+			msgs[i][k] = byte(rng.Intn(256))
+		}
+	}
+	start := make(chan struct{})
+	var wg sync.WaitGroup
+	got := make([]uint16, G)
+	frames := make([][]byte, G)
+	for g := 0; g < G; g++ {
+		wg.Add(1)
+		go func(g int) {
+			defer wg.Done()
+			<-start
+			if g%2 == 0 {
+				got[g] = packet.CRC16(msgs[g])
+			} else {
+				frames[g] = packet.ErrorResponseRTU{UnitID: msgs[g][0], Function: 3, Code: 2}.Bytes()
+			}
+		}(g)
+	}
+	close(start)
+	wg.Wait()
+	r.Eval(G)
+	r.Distinct(mon.Mix(0xC01D, uint64(c.Seed)))
+	for g := 0; g < G; g++ {
+		if g%2 == 0 {
+			if w := specref.CRC(msgs[g]); got[g] != w {
+				r.Violate(c, "crc-mismatch", mon.Attrs{"how": "concurrent-first-use"}, fmt.Sprintf("one of the first CRC16 calls of a fresh process, made concurrently by %d goroutines: CRC16(% x)=%#04x want %#04x", G, msgs[g], got[g], w))
+				return
+			}
+		} else if fr := frames[g]; len(fr) == 5 {
+			if w := specref.CRC(fr[:3]); fr[3] != byte(w) || fr[4] != byte(w>>8) {
+				r.Violate(c, "trailer-not-crc", mon.Attrs{"what": "exception", "how": "concurrent-first-use"}, fmt.Sprintf("frame % x emitted among the first calls of a fresh process: reference CRC %#04x", fr, w))
+				return
+			}
+		}
+	}
+}
+
+// runCube: all 65536 values of a 16-bit field for one unit id, for several RTU frame shapes.
+func runCube(c *Case, r *mon.Rec) {
+	rng := rand.New(rand.NewSource(c.Seed))
+	u := uint8(c.Unit)
+	fixed := uint16(rng.Intn(65536))
+	regs := []byte{byte(rng.Intn(256)), byte(rng.Intn(256)), byte(rng.Intn(256)), byte(rng.Intn(256))}
+	bad := 0
+	n := 0
+	emit := func(what string, fr []byte, isResp bool) {
+		n++
+		if len(fr) < 4 {
+			return
+		}
+		w := specref.CRC(fr[:len(fr)-2])
+		if fr[len(fr)-2] != byte(w) || fr[len(fr)-1] != byte(w>>8) {
+			bad++
+			if bad <= 3 {
+				r.Violate(c, "trailer-not-crc", mon.Attrs{"what": what}, fmt.Sprintf("frame % x: trailer %02x %02x, reference CRC %#04x", fr, fr[len(fr)-2], fr[len(fr)-1], w))
+			}
+			return
+		}
+		var err error
+		if isResp {
+			_, err = packet.ParseRTUResponseWithCRC(fr)
+		} else {
+			_, err = packet.ParseRTURequestWithCRC(fr)
+		}
+		var exc *packet.ErrorResponseRTU
+		if err != nil && isResp && fr[1]&0x80 != 0 && errors.As(err, &exc) {
+			err = nil // an exception frame that passed the CRC gate is reported as the typed exception
+		}
+		if err != nil {
+			bad++
+			if bad <= 3 {
+				r.Violate(c, "withcrc-rejects-good", mon.Attrs{"resp": isResp, "fc": int(fr[1] & 0x7f), "cube": true}, fmt.Sprintf("the library's own frame % x (CRC %#04x) is rejected: %v", fr, w, err))
+			}
+		}
+	}
+	for v := 0; v < 65536; v++ {
+		x := uint16(v)
+		if q, err := packet.NewReadHoldingRegistersRequestRTU(u, x, 2); err == nil {
+			emit("request-fc3", q.Bytes(), false)
+		}
+		if q, err := packet.NewWriteSingleRegisterRequestRTU(u, fixed, []byte{byte(v >> 8), byte(v)}); err == nil {
+			emit("request-fc6", q.Bytes(), false)
+		}
+		if q, err := packet.NewWriteMultipleRegistersRequestRTU(u, x, regs[:2+2*(v&1)]); err == nil {
+			emit("request-fc16", q.Bytes(), false)
+		}
+		emit("response-fc3", packet.ReadHoldingRegistersResponseRTU{ReadHoldingRegistersResponse: packet.ReadHoldingRegistersResponse{UnitID: u, RegisterByteLen: 2, Data: []byte{byte(v >> 8), byte(v)}}}.Bytes(), true)
+		emit("response-fc6", packet.WriteSingleRegisterResponseRTU{WriteSingleRegisterResponse: packet.WriteSingleRegisterResponse{UnitID: u, Address: fixed, Data: [2]byte{byte(v >> 8), byte(v)}}}.Bytes(), true)
+		if r.Thorough() || v%4 == 0 {
+			if q, err := packet.NewReadCoilsRequestRTU(u, x, 9); err == nil {
+				emit("request-fc1", q.Bytes(), false)
+			}
+			if q, err := packet.NewWriteSingleCoilRequestRTU(u, x, v&1 == 0); err == nil {
+				emit("request-fc5", q.Bytes(), false)
+			}
+			emit("response-fc16", packet.WriteMultipleRegistersResponseRTU{WriteMultipleRegistersResponse: packet.WriteMultipleRegistersResponse{UnitID: u, StartAddress: x, RegisterCount: 2}}.Bytes(), true)
+			emit("exception", packet.ErrorResponseRTU{UnitID: u, Function: uint8(v >> 8 & 0x7f), Code: uint8(v)}.Bytes(), true)
+		}
+	}
+	r.Eval(n)
+	r.Distinct(mon.Mix(7, uint64(c.Unit)))
+	r.CoverN("kind", "cube-frames", int64(n))
 }
 
 func runSweep(c *Case, r *mon.Rec) {
